@@ -392,6 +392,42 @@ class Gen:
             return {'op': 'trace', 'tans': tans}
         return {'op': 'reset', 'run': run, 'tn': tn, 'task': task, 'alg': alg}
 
+    def same_connection(self, o):
+        '''what one worker does on ONE connection: after the load / update `o`,
+        one or two more loads / updates of the same run, target, algorithm and
+        state vector through the same dawgie.db.connect() object; the objects
+        of the state vector are replaced in between (base values before run(),
+        current values after), possibly with another VALUE version while the
+        algorithm and state-vector versions stay.  The model has no
+        per-connection state: the flag is invisible to it.'''
+        r = self.rng
+        out = []
+        task, alg, sv = o['task'], o['alg'], o['sv']
+        for _ in range(r.randint(1, 2)):
+            vns = [v[0] for v in o['vals']]
+            if r.random() < 0.3:
+                vns = sorted(set(vns + [r.choice(self.vals)]))
+            if r.random() < 0.6:    # the value produced by run() has its own version
+                self.ver[('v', task, alg, sv, r.choice(vns))] = r.choice(VERS)
+            head = {'run': o['run'], 'tn': o['tn'], 'task': task, 'alg': alg,
+                    'aver': list(o['aver']), 'sv': sv, 'sver': list(o['sver']),
+                    'same_conn': True}
+            if r.random() < 0.7:
+                vals = [[vn, list(self.v('v', task, alg, sv, vn)), r.randint(0, 3)]
+                        for vn in vns]
+                self.updated.append((o['tn'], task, alg, sv, vns))
+                out.append(dict(head, op='upd', vals=vals, crash=None))
+            else:
+                out.append(dict(head, op='load', vals=[
+                    [vn, list(self.v('v', task, alg, sv, vn))] for vn in vns]))
+        # and a fresh connection looks at what is stored for it now
+        out.append({'op': 'load', 'run': o['run'], 'tn': o['tn'], 'task': task,
+                    'alg': alg, 'aver': list(o['aver']), 'sv': sv,
+                    'sver': list(o['sver']),
+                    'vals': [[vn, list(self.v('v', task, alg, sv, vn))]
+                             for vn in sorted({v[0] for x in out for v in x['vals']})]})
+        return out
+
     def history(self, n):
         out = []
         if self.wide:
@@ -414,6 +450,9 @@ class Gen:
                 out.append(o)
                 if o['op'] == 'upd' and o['crash'] is not None and self.rng.random() < 0.6:
                     out.append({'op': 'reopen'})
+                elif (o['op'] in ('upd', 'load') and o.get('crash') is None
+                      and self.rng.random() < 0.3):
+                    out.extend(self.same_connection(o))
         out.append({'op': 'names'})
         out.append({'op': 'reopen'})
         return out
